@@ -234,7 +234,7 @@ def run_case(case):
         picks = picks + ["tmpl:" + case["tmpl"]]
         case = dict(case, hlen=0)
     else:
-        g = gen_v2.gen_hierarchy(rng, max_flows=5, with_vars=rng.random() < 0.5, loops=rng.random() < 0.2, main_kids_first=True)
+        g = gen_v2.gen_hierarchy(rng, max_flows=5, with_vars=rng.random() < 0.5, loops=rng.random() < 0.2, main_kids_first=True, ext_end=rng.random() < 0.3)
         src = g["src"].replace("flow main\n", "flow main\n  activate varholder\n", 1) + "\n" + hsrc
         hist = []
     for _ in range(case["hlen"]):
